@@ -71,8 +71,9 @@ def run(tier, seed):
         if not ck.ground('C19.iterations-equal', 'all 256 iterations execute the same call sequence (prefix + one ladder step of %d calls)' % len(traces[0]), ok):
             failures.append('iterations')
         ck.extra['calls_per_run_prefix_plus_one_step'] = len(traces[0])
-    ok = fnset <= {MULT}
-    if not ck.ground('C19.branches', 'the only scalar-dependent branches are in multiply itself (shortcut test and bit test): %s' % sorted(allowed_pos), ok and len(allowed_pos) <= 2, str(sorted(allowed_pos))):
+    # the shortcut test and the bit test, in multiply or in a helper of the group layer it calls; never inside internal/field or internal/scalar
+    ok = all(not fn_.startswith(('field.', 'scalar.', '(*field.', '(*scalar.', '(field.', '(scalar.')) and 'internal/' not in fn_ for fn_ in fnset)
+    if not ck.ground('C19.branches', 'the only scalar-dependent branches are the shortcut test and the bit test, in the group layer (none inside the field / scalar packages): %s' % sorted(allowed_pos), ok and len(allowed_pos) <= 2, str(sorted(allowed_pos))):
         failures.append('branches')
     r = R_['exit']
     ex_paths = [p for p in r.paths if p['end'] == 'return' and 'cut:havoc' in p['obs']]
